@@ -136,19 +136,19 @@ class Stack:
             item = (sim.now + self.tx_pre, can_id)
             self._prequeue.append(item)
             try:
-                sk.FAKE_TIME.sleep(self.tx_pre)
+                sk.exact_sleep(self.tx_pre)
             finally:
                 self._prequeue.remove(item)
         elif self._prequeue:
             ahead = [t for (t, cid) in self._prequeue if cid <= can_id]
             if ahead and max(ahead) > sim.now:
-                sk.FAKE_TIME.sleep(max(ahead) - sim.now + 1e-6)     # strictly behind it
+                sk.exact_sleep(max(ahead) - sim.now + 1e-6)     # strictly behind it
         self.sent.append((self.world.sim.now, f))
         self.world.bus.transmit(self, f)
         if self.tx_time and (self.world.sim.current is not None or self.tx_all_contexts):
             # the frame is on the bus; the calling thread stays inside the driver call a little longer, so a reply can be
             # handled by the receive path before the send call has returned (threaded counterpart of latency 0)
-            sk.FAKE_TIME.sleep(self.tx_time)
+            sk.exact_sleep(self.tx_time)
 
     def rx(self, frame):
         msg = _can.Message(arbitration_id=frame.can_id, is_extended_id=frame.ext, data=frame.data,
